@@ -1,1 +1,413 @@
-//! Adversary: mutation operators over honest answers (filled in per property).
+//! Adversary: mutation operators over honest answers. Every operator has a stable name.
+
+use ckb_network::bytes::Bytes as P2pBytes;
+use ckb_types::{
+    core::{BlockView, HeaderView},
+    packed::{self, Byte32},
+    prelude::*,
+    U256,
+};
+
+use super::chain::{unmine, Chain, PowKind};
+use super::rng::Rng;
+use super::server::{self, ProofParts};
+
+fn remine(chain: &Chain, h: packed::Header) -> packed::Header {
+    // under Eaglesong a changed header needs a fresh nonce to pass the PoW gate (so that the mutation
+    // reaches the checks behind it); under dummy PoW nothing to do
+    if chain.params.pow != PowKind::Eaglesong {
+        return h;
+    }
+    let pow = ckb_pow::Pow::EaglesongBlake2b;
+    let eng = pow.engine();
+    let mut n: u128 = 7 << 64;
+    loop {
+        let c = h.clone().as_builder().nonce(n.pack()).build();
+        if eng.verify(&c) {
+            return c;
+        }
+        n += 1;
+    }
+}
+
+/// field-level mutation of one raw header; `mine` = give it a valid nonce again
+pub fn mutate_header(rng: &mut Rng, chain: &Chain, h: &packed::Header, mine: bool) -> (packed::Header, String) {
+    let raw = h.raw();
+    let k = rng.below(9);
+    let (raw2, name) = match k {
+        0 => {
+            let t: u64 = raw.timestamp().unpack();
+            (raw.clone().as_builder().timestamp((t ^ 1).pack()).build(), "timestamp")
+        }
+        1 => {
+            let n: u64 = raw.number().unpack();
+            let n2 = if rng.chance(1, 2) { n.wrapping_add(1) } else { n.wrapping_sub(1) };
+            (raw.clone().as_builder().number(n2.pack()).build(), "number")
+        }
+        2 => {
+            let c: u32 = raw.compact_target().unpack();
+            (raw.clone().as_builder().compact_target((c ^ 1).pack()).build(), "compact_target")
+        }
+        3 => {
+            let e: u64 = raw.epoch().unpack();
+            (raw.clone().as_builder().epoch((e ^ (1 << rng.below(56))).pack()).build(), "epoch")
+        }
+        4 => (raw.clone().as_builder().parent_hash(Byte32::new(rand32(rng))).build(), "parent_hash"),
+        5 => (raw.clone().as_builder().transactions_root(Byte32::new(rand32(rng))).build(), "transactions_root"),
+        6 => (raw.clone().as_builder().extra_hash(Byte32::new(rand32(rng))).build(), "extra_hash"),
+        7 => (raw.clone().as_builder().dao(Byte32::new(rand32(rng))).build(), "dao"),
+        _ => (raw.clone().as_builder().proposals_hash(Byte32::new(rand32(rng))).build(), "proposals_hash"),
+    };
+    let h2 = h.clone().as_builder().raw(raw2).build();
+    if mine {
+        (remine(chain, h2), format!("header.{}+remined", name))
+    } else {
+        (h2, format!("header.{}", name))
+    }
+}
+
+pub fn rand32(rng: &mut Rng) -> [u8; 32] {
+    let v = rng.bytes(32);
+    let mut a = [0u8; 32];
+    a.copy_from_slice(&v);
+    a
+}
+
+fn section_of(parts: &ProofParts, idx: usize) -> &'static str {
+    if idx < parts.reorg.len() {
+        "reorg"
+    } else if idx < parts.reorg.len() + parts.sampled.len() {
+        "sampled"
+    } else {
+        "lastn"
+    }
+}
+
+/// One mutation of an honest SendLastStateProof. Returns None if the operator does not apply.
+pub fn mutate_last_state_proof(
+    rng: &mut Rng,
+    chain: &Chain,
+    other: Option<&Chain>,
+    parts: &ProofParts,
+    honest: &packed::SendLastStateProof,
+) -> Option<(packed::SendLastStateProof, String)> {
+    let headers: Vec<packed::VerifiableHeader> = honest.headers().into_iter().collect();
+    let proof: Vec<packed::HeaderDigest> = honest.proof().into_iter().collect();
+    let n = headers.len();
+    let pick_idx = |rng: &mut Rng| -> Option<usize> {
+        if n == 0 {
+            None
+        } else {
+            Some(rng.pick_idx(n))
+        }
+    };
+    let rebuild = |hs: Vec<packed::VerifiableHeader>, pf: Vec<packed::HeaderDigest>, last: packed::VerifiableHeader| {
+        packed::SendLastStateProof::new_builder()
+            .last_header(last)
+            .proof(packed::HeaderDigestVec::new_builder().set(pf).build())
+            .headers(packed::VerifiableHeaderVec::new_builder().set(hs).build())
+            .build()
+    };
+    let last = honest.last_header();
+    let op = rng.below(22);
+    let out = match op {
+        0 => {
+            let i = pick_idx(rng)?;
+            let mut hs = headers.clone();
+            hs.remove(i);
+            (rebuild(hs, proof, last), format!("drop-header|{}", section_of(parts, i)))
+        }
+        1 => {
+            let i = pick_idx(rng)?;
+            let mut hs = headers.clone();
+            hs.insert(i, headers[i].clone());
+            (rebuild(hs, proof, last), format!("dup-header|{}", section_of(parts, i)))
+        }
+        2 => {
+            if n < 2 {
+                return None;
+            }
+            let i = rng.pick_idx(n - 1);
+            let mut hs = headers.clone();
+            hs.swap(i, i + 1);
+            (rebuild(hs, proof, last), format!("swap-headers|{}", section_of(parts, i)))
+        }
+        3 => {
+            // replace by a neighbour block of the same chain (valid header, wrong position)
+            let i = pick_idx(rng)?;
+            let num: u64 = headers[i].header().raw().number().unpack();
+            let cand = if rng.chance(1, 2) { num + 1 } else { num.wrapping_sub(1) };
+            if cand > chain.tip() || cand == 0 || parts.all().contains(&cand) {
+                return None;
+            }
+            let mut hs = headers.clone();
+            hs[i] = chain.vh(cand);
+            (rebuild(hs, proof, last), format!("replace-by-neighbour|{}", section_of(parts, i)))
+        }
+        4 => {
+            // replace by the block of another branch at the same height
+            let o = other?;
+            let i = pick_idx(rng)?;
+            let num: u64 = headers[i].header().raw().number().unpack();
+            if num == 0 || num > o.tip() || o.blocks[num as usize].hash() == chain.blocks[num as usize].hash() {
+                return None;
+            }
+            let mut hs = headers.clone();
+            hs[i] = o.vh(num);
+            (rebuild(hs, proof, last), format!("replace-by-other-branch|{}", section_of(parts, i)))
+        }
+        5 | 6 => {
+            let i = pick_idx(rng)?;
+            let mine = op == 6;
+            let (h2, name) = mutate_header(rng, chain, &headers[i].header(), mine);
+            let mut hs = headers.clone();
+            hs[i] = headers[i].clone().as_builder().header(h2).build();
+            (rebuild(hs, proof, last), format!("{}|{}", name, section_of(parts, i)))
+        }
+        7 => {
+            // header with a nonce that does not solve PoW (only observable under Eaglesong)
+            if chain.params.pow != PowKind::Eaglesong {
+                return None;
+            }
+            let i = pick_idx(rng)?;
+            let num: u64 = headers[i].header().raw().number().unpack();
+            let b = unmine(&chain.blocks[num as usize])?;
+            let mut hs = headers.clone();
+            hs[i] = headers[i].clone().as_builder().header(b.header().data()).build();
+            (rebuild(hs, proof, last), format!("unsolved-nonce|{}", section_of(parts, i)))
+        }
+        8 => {
+            let i = pick_idx(rng)?;
+            let mut hs = headers.clone();
+            hs[i] = headers[i].clone().as_builder().uncles_hash(Byte32::new(rand32(rng))).build();
+            (rebuild(hs, proof, last), format!("vh.uncles_hash|{}", section_of(parts, i)))
+        }
+        9 => {
+            let i = pick_idx(rng)?;
+            let mut hs = headers.clone();
+            let elen = 32 + rng.below(8) as usize;
+            let ext: Option<packed::Bytes> = if rng.chance(1, 3) { None } else { Some(rng.bytes(elen).pack()) };
+            hs[i] = headers[i].clone().as_builder().extension(Pack::pack(&ext)).build();
+            (rebuild(hs, proof, last), format!("vh.extension|{}", section_of(parts, i)))
+        }
+        10 => {
+            let i = pick_idx(rng)?;
+            let num: u64 = headers[i].header().raw().number().unpack();
+            if num == 0 {
+                return None; // genesis has no parent chain root: the field carries no information
+            }
+            let root = headers[i].parent_chain_root();
+            let (root2, name) = mutate_digest(rng, &root);
+            let mut hs = headers.clone();
+            hs[i] = headers[i].clone().as_builder().parent_chain_root(root2).build();
+            (rebuild(hs, proof, last), format!("vh.parent_chain_root.{}|{}", name, section_of(parts, i)))
+        }
+        11 => {
+            if proof.is_empty() {
+                return None;
+            }
+            let i = rng.pick_idx(proof.len());
+            let mut pf = proof.clone();
+            pf.remove(i);
+            (rebuild(headers, pf, last), "drop-proof-item".to_string())
+        }
+        12 => {
+            if proof.is_empty() {
+                return None;
+            }
+            let i = rng.pick_idx(proof.len());
+            let mut pf = proof.clone();
+            pf.insert(i, proof[i].clone());
+            (rebuild(headers, pf, last), "dup-proof-item".to_string())
+        }
+        13 => {
+            if proof.is_empty() {
+                return None;
+            }
+            let i = rng.pick_idx(proof.len());
+            let (d2, name) = mutate_digest(rng, &proof[i]);
+            let mut pf = proof.clone();
+            pf[i] = d2;
+            (rebuild(headers, pf, last), format!("proof-item.{}", name))
+        }
+        14 => {
+            let mut pf = proof.clone();
+            let extra = if !proof.is_empty() && rng.chance(1, 2) { proof[0].clone() } else { chain.blocks[rng.pick_idx(chain.blocks.len())].digest() };
+            pf.push(extra);
+            (rebuild(headers, pf, last), "append-proof-item".to_string())
+        }
+        15 => {
+            if proof.len() < 2 {
+                return None;
+            }
+            let i = rng.pick_idx(proof.len() - 1);
+            let mut pf = proof.clone();
+            pf.swap(i, i + 1);
+            if pf[i].as_slice() == proof[i].as_slice() {
+                return None;
+            }
+            (rebuild(headers, pf, last), "swap-proof-items".to_string())
+        }
+        16 => {
+            // shift the last-N section: one more block before it (valid header, not requested)
+            let first = *parts.last_n.first()?;
+            if first == 0 || parts.all().contains(&(first - 1)) || first - 1 == 0 {
+                return None;
+            }
+            let pos = parts.reorg.len() + parts.sampled.len();
+            let mut hs = headers.clone();
+            hs.insert(pos, chain.vh(first - 1));
+            (rebuild(hs, proof, last), "extra-block-before-lastn".to_string())
+        }
+        17 => {
+            // drop the first block of the last-N section (the boundary block)
+            if parts.last_n.len() < 2 {
+                return None;
+            }
+            let pos = parts.reorg.len() + parts.sampled.len();
+            let mut hs = headers.clone();
+            hs.remove(pos);
+            (rebuild(hs, proof, last), "drop-first-of-lastn".to_string())
+        }
+        18 => {
+            // answer for a different last header (the previous block): complete, self-consistent proof
+            if parts.last < 2 {
+                return None;
+            }
+            let mut p2 = parts.clone();
+            p2.last -= 1;
+            p2.last_n.retain(|x| *x < p2.last);
+            p2.sampled.retain(|x| *x < p2.last);
+            (server::encode_proof(chain, &p2), "proof-for-previous-block".to_string())
+        }
+        19 => {
+            // consistent proof over a different leaf set (drop one header and regenerate the proof)
+            if n < 2 {
+                return None;
+            }
+            let mut p2 = parts.clone();
+            let which = rng.below(3);
+            let tag = match which {
+                0 if !p2.sampled.is_empty() => {
+                    let i = rng.pick_idx(p2.sampled.len());
+                    p2.sampled.remove(i);
+                    "sampled"
+                }
+                1 if p2.last_n.len() > 1 => {
+                    let i = rng.pick_idx(p2.last_n.len());
+                    p2.last_n.remove(i);
+                    "lastn"
+                }
+                2 if !p2.reorg.is_empty() => {
+                    let i = rng.pick_idx(p2.reorg.len());
+                    p2.reorg.remove(i);
+                    "reorg"
+                }
+                _ => return None,
+            };
+            (server::encode_proof(chain, &p2), format!("consistent-proof-without-one-header|{}", tag))
+        }
+        20 => {
+            // last header altered
+            let (root2, name) = mutate_digest(rng, &last.parent_chain_root());
+            (rebuild(headers, proof, last.clone().as_builder().parent_chain_root(root2).build()), format!("last_header.parent_chain_root.{}", name))
+        }
+        _ => {
+            // a sampled header replaced by a consistent block that does not cover the requested difficulty
+            if parts.sampled.is_empty() {
+                return None;
+            }
+            let i = rng.pick_idx(parts.sampled.len());
+            let cur = parts.sampled[i];
+            let cand = if rng.chance(1, 2) { cur + 1 } else { cur.wrapping_sub(1) };
+            if cand == 0 || cand >= parts.boundary.unwrap_or(0) || parts.all().contains(&cand) {
+                return None;
+            }
+            let mut p2 = parts.clone();
+            p2.sampled[i] = cand;
+            p2.sampled.sort();
+            (server::encode_proof(chain, &p2), "consistent-proof-wrong-sample".to_string())
+        }
+    };
+    if out.0.as_slice() == honest.as_slice() {
+        return None;
+    }
+    Some(out)
+}
+
+pub fn mutate_digest(rng: &mut Rng, d: &packed::HeaderDigest) -> (packed::HeaderDigest, &'static str) {
+    match rng.below(6) {
+        0 => {
+            let td: U256 = d.total_difficulty().unpack();
+            let td2 = match rng.below(4) {
+                0 => td.checked_add(&U256::one()).unwrap_or_else(U256::zero),
+                1 => td.checked_sub(&U256::one()).unwrap_or_else(U256::max_value),
+                2 => U256::max_value(),
+                _ => U256::zero(),
+            };
+            (d.clone().as_builder().total_difficulty(td2.pack()).build(), "total_difficulty")
+        }
+        1 => {
+            let n: u64 = d.end_number().unpack();
+            let n2 = *rng.pick(&[n.wrapping_add(1), n.wrapping_sub(1), u64::MAX, 0]);
+            (d.clone().as_builder().end_number(n2.pack()).build(), "end_number")
+        }
+        2 => {
+            let n: u64 = d.start_number().unpack();
+            (d.clone().as_builder().start_number(n.wrapping_add(1).pack()).build(), "start_number")
+        }
+        3 => (d.clone().as_builder().children_hash(Byte32::new(rand32(rng))).build(), "children_hash"),
+        4 => {
+            let t: u64 = d.end_timestamp().unpack();
+            (d.clone().as_builder().end_timestamp((t ^ 1).pack()).build(), "end_timestamp")
+        }
+        _ => {
+            let c: u32 = d.end_compact_target().unpack();
+            (d.clone().as_builder().end_compact_target((c ^ 1).pack()).build(), "end_compact_target")
+        }
+    }
+}
+
+/// flip one byte of an encoded message; kept only if it still parses as a light client message
+pub fn flip_byte_lc(rng: &mut Rng, data: &P2pBytes) -> Option<(P2pBytes, String)> {
+    if data.len() < 8 {
+        return None;
+    }
+    let mut v = data.to_vec();
+    let i = rng.range(4, v.len() as u64 - 1) as usize;
+    v[i] ^= 1 << rng.below(8);
+    if packed::LightClientMessageReader::from_compatible_slice(&v).is_err() {
+        return None;
+    }
+    Some((P2pBytes::from(v), "flip-bit".into()))
+}
+
+/// A self-mined child of `chain`'s tip whose extension commits to a forged parent chain root.
+pub fn forged_child(chain: &Chain, forged_td: Option<U256>, forged_end: Option<u64>, salt: u64) -> (BlockView, packed::VerifiableHeader) {
+    let mut c = chain.clone();
+    c.branch_salt = salt | 1;
+    c.push_block(salt | 1);
+    let honest_child = c.blocks.last().unwrap().clone();
+    let n = honest_child.number();
+    let mut root = chain.root(n - 1);
+    if let Some(td) = forged_td {
+        root = root.as_builder().total_difficulty(td.pack()).build();
+    }
+    if let Some(e) = forged_end {
+        root = root.as_builder().end_number(e.pack()).build();
+    }
+    let ext: packed::Bytes = root.calc_mmr_hash().as_bytes().pack();
+    let b = honest_child.as_advanced_builder().extension(Some(ext)).build();
+    let b = super::chain::mine_block(chain.params.pow, b, salt);
+    let vh = packed::VerifiableHeader::new_builder()
+        .header(b.data().header())
+        .uncles_hash(b.calc_uncles_hash())
+        .extension(Pack::pack(&b.extension()))
+        .parent_chain_root(root)
+        .build();
+    (b, vh)
+}
+
+pub fn header_view(vh: &packed::VerifiableHeader) -> HeaderView {
+    vh.header().into_view()
+}
